@@ -35,6 +35,8 @@ func init() {
 
 const tsPkg = "pkg/timestamp"
 
+// degenerateToo is set by the thorough tier of C06: empty/point ranges (Start == End) are then compared as well
+// and their disagreements reported as notes (they are outside the claimed domain).
 func nondegenerate(w *cmpeval.World, ranges ...string) {
 	for _, p := range ranges {
 		if w.Cmp(p+".Start", p+".End") >= 0 {
